@@ -187,6 +187,11 @@ CLAIMED = {
         "note": _NOTE,
         "technique": "static analysis: def-use taint + CFG dominance/post-dominance typestate rule (ast)",
     },
+    "C16": {
+        "text": "Narrow claim, decided on every run; the multiplicative (1+t) bound itself is numeric and NOT decided. Decided: (B1) tolerances only coarsen comparisons -- the rounding helpers never mutate their argument, rounded values flow only into the table handed to fast_pareto_mask and never into a mapping table or a return value, makepareto returns a row selection of its unmodified input (necessary for 'never below the exact optimum': every reported objective is the unrounded value of an actual mapping); (B2) the excess resource tolerance is written only by the table constructor (default 0) and the threshold loop whose thresholds end at 0 and whose early return passes the oversubscription scan, and limit_capacity keeps a reservation column while any row exceeds 1 (necessary for 'still valid'); (B3) one objective grid: index = round(log x / log(1+t)), re-expanded with the same step, identity at t = 0/None and for non-positive data; (B4) errors do not stack in tile exploration: a non-zero tolerance reaches a Goal only for a fully evaluated formula, merged goals keep the smaller tolerance, goals of replaced single terms are reset before being handed on.",
+        "design_ref": "DESIGN.md section 3, C16", "note": _NOTE,
+        "technique": "static analysis: taint/effect analysis of rounded values (who-may-store), who-may-write census, CFG dominance of the zeroing over later uses, control-dependence, operator-shape rules (ast/CFG)",
+    },
 }
 
 NOT_APPLICABLE = {
@@ -195,7 +200,6 @@ NOT_APPLICABLE = {
     "C06": "peak of live-tile sizes over execution time vs the reservation-column algebra whose column names are created at run time; the only structural clause is too thin to claim the property through",
     "C08": "equality of two Pareto fronts over all tile assignments; depends on sign-analysis results for concrete formulas (conservativeness of the oracle is claimed under C09)",
     "C10": "divisor sets and factorisation-chain counts for every integer are value properties; the only structural clause (guard n > outer_size) is too thin",
-    "C16": "a multiplicative optimality bound on runtime objective values under rounding is numeric (that tolerance joins end exact is C14-A1)",
     "C18": "monotonicity of an optimum under mapspace inclusion follows from inclusion and C01, neither structural",
 }
 
